@@ -62,7 +62,7 @@ ID = "C16"
 LEVEL = "exploration"
 BUDGET = {"quick": 50, "thorough": 900}
 
-DEPLOYMENTS = [("mem", 8.0), ("cached", 0.3), ("jf-sym", 0.9)]
+DEPLOYMENTS = [("mem", 8.0), ("cached", 0.3), ("jf-sym", 0.9), ("grpc(mem)", 0.8)]
 
 EVIDENCE = {
     "rule": "one case = one simulated execution of a generated plan: deployment, pruner with all parameters, direction, pool of finished trials, 1-4 worker scripts (report / should_prune / tell / die), scheduler decisions. Non-trivial = at least one context switch between workers and at least 3 should_prune() results were checked; distinct = distinct digests over every scheduling decision, reported value and should_prune result.",
@@ -716,15 +716,38 @@ def _run(plan: dict, sim: sched.Sim, ch: sched.Chooser, dep: deploy.Deployment) 
                             def _boom(*a_: Any, **k_: Any) -> None:
                                 raise _SIE("injected: connection lost while storing an intermediate value")
 
-                            tgt = cur.storage
-                            tgt.set_trial_intermediate_value = _boom
-                            try:
+                            if dep.server is not None:
+                                # behind the proxy: the connection is reset before the request
+                                # is delivered (the client's own error handling runs)
+                                import grpc as _grpc
+
+                                armed = [True]
+
+                                def _reset(task_: str, method_: str, phase_: str) -> bool:
+                                    if armed[0] and method_ == "SetTrialIntermediateValue" and phase_ == "pre" and task_ == sim.cur.name:
+                                        armed[0] = False
+                                        return True
+                                    return False
+
+                                prev_fault = dep.server.fault
+                                dep.server.fault = _reset
                                 try:
-                                    cur.report(v, step)
-                                except _SIE:
-                                    sim.count("fault:report_write_fails")
-                            finally:
-                                tgt.__dict__.pop("set_trial_intermediate_value", None)
+                                    try:
+                                        cur.report(v, step)
+                                    except _grpc.RpcError:
+                                        sim.count("fault:report_write_fails")
+                                finally:
+                                    dep.server.fault = prev_fault
+                            else:
+                                tgt = cur.storage
+                                tgt.set_trial_intermediate_value = _boom
+                                try:
+                                    try:
+                                        cur.report(v, step)
+                                    except _SIE:
+                                        sim.count("fault:report_write_fails")
+                                finally:
+                                    tgt.__dict__.pop("set_trial_intermediate_value", None)
                         call("report", num, cur.report, v, step)
                     elif k == "sp":
                         infl, ep = G["complete_inflight"], G["epoch"]
